@@ -351,11 +351,28 @@ impl Oracle for CycKf {
         let prog = &cx.case.prog;
         // 1. did a cycle finalize with unstable dependencies in this step?
         let mut last: std::collections::BTreeMap<(u32, u64), bool> = Default::default();
+        let mut conv: std::collections::BTreeMap<(u32, u64), (bool, bool)> = Default::default();
         let mut unstable = false;
+        let mut early: Vec<Violation> = vec![];
         for h in cx.hooks {
-            if let T::CycleHead { ingredient, key, finalized, deps_stable, .. } = h {
+            if let T::CycleHead { ingredient, key, finalized, deps_stable, value_converged, metadata_converged, iteration, heads, .. } = h {
                 last.insert((*ingredient, *key), *deps_stable);
+                conv.insert((*ingredient, *key), (*value_converged, *metadata_converged));
                 if *finalized {
+                    // invariant of the iteration itself (independent of any later symptom): when
+                    // the outermost head finalizes the cycle, the last iteration of EVERY head of
+                    // the cycle must have had a converged value and converged changed_at /
+                    // durability / untracked flag
+                    if let Some((k, (vc, mc))) = conv.iter().find(|(k, (vc, mc))| heads.contains(k) && (!*vc || !*mc)) {
+                        early.push(viol(
+                            "cycle-finalized-before-convergence",
+                            cx.idx,
+                            format!("cycle finalized at iteration {iteration} although head {k:?} had value_converged={vc} metadata_converged={mc} in its last iteration"),
+                        ));
+                    }
+                    for k in heads {
+                        conv.remove(k);
+                    }
                     self.finalizations += 1;
                     if last.values().any(|s| !*s) {
                         unstable = true;
@@ -398,6 +415,7 @@ impl Oracle for CycKf {
                 }
             }
         }
+        v.extend(early);
         v
     }
     fn finish(&mut self, case: &Case, ix: &Index) -> Vec<Violation> {
